@@ -101,8 +101,8 @@ def build_hierarchy(spec):
     layers = {}
     instances = {}
     by_kind = {k: [] for k in kinds}
-    for ls in spec["layers"]:
-        rawcls, cls, vt = kinds[ls["type"]]
+
+    def make_instances(ls):
         cps = []
         for i, c in enumerate(ls.get("comparams", [])):
             if c.get("xml"):
@@ -117,6 +117,13 @@ def build_hierarchy(spec):
                                     spec_ref=OdxLinkRef.from_id(oid(c.get("spec_id", "cps." + c["cp"]))))
             cps.append(inst)
             instances[c.get("tag", f"{ls['name']}#{i}")] = inst
+        return cps
+
+    for ls in spec["layers"]:
+        rawcls, cls, vt = kinds[ls["type"]]
+        # "first_comparams": what the layer defines before it is edited (see "edited" below)
+        cps = make_instances(dict(ls, comparams=ls["first_comparams"])
+                             if "first_comparams" in ls else ls)
         prefs = [mk(ParentRef, layer_ref=OdxLinkRef.from_id(oid("layer." + p))) for p in ls["parents"]]
         kw = dict(odx_id=oid("layer." + ls["name"]), short_name=ls["name"], variant_type=vt)
         if ls["type"] != "ecu-shared-data":
@@ -127,6 +134,31 @@ def build_hierarchy(spec):
         layer = cls(diag_layer_raw=raw)
         layers[ls["name"]] = layer
         by_kind[ls["type"]].append(layer)
+    if spec.get("edited"):
+        # one container per layer, children BEFORE their parents; the database is finalised, then
+        # every layer's definitions are replaced by the final ones and the database is refreshed
+        dlcs = []
+        for ls in reversed(spec["layers"]):
+            one = {k: [] for k in kinds}
+            one[ls["type"]].append(layers[ls["name"]])
+            dlcs.append(mk(DiagLayerContainer, odx_id=oid("dlc." + ls["name"]),
+                           short_name="dlc_" + ls["name"],
+                           protocols=NamedItemList(one["protocol"]),
+                           functional_groups=NamedItemList(one["functional-group"]),
+                           base_variants=NamedItemList(one["base-variant"]),
+                           ecu_variants=NamedItemList(one["ecu-variant"]),
+                           ecu_shared_datas=NamedItemList(one["ecu-shared-data"])))
+        db = Database()
+        db._diag_layer_containers = NamedItemList(dlcs)
+        db._comparam_subsets = NamedItemList(subsets)
+        db._comparam_specs = NamedItemList([mk(ComparamSpec, odx_id=oid("cpspec"), short_name="cpspec")])
+        db.refresh()
+        instances.clear()
+        for ls in spec["layers"]:
+            if ls["type"] != "ecu-shared-data":
+                layers[ls["name"]].diag_layer_raw.comparam_refs = make_instances(ls)
+        db.refresh()
+        return {"db": db, "layers": layers, "instances": instances}
     dlc = mk(DiagLayerContainer, odx_id=oid("dlc"), short_name="dlc",
              protocols=NamedItemList(by_kind["protocol"]),
              functional_groups=NamedItemList(by_kind["functional-group"]),
